@@ -738,6 +738,33 @@ def rule_bins(ctx, rid):
         edges, centres = exits[0].value[1]
         ok = False
         t = centres
+        # first reading: the centres term interpreted on sample edge vectors (exact rationals, unequal spacing so that
+        # a wrong neighbour or weight shows)
+        from fractions import Fraction
+        from ..orderval import OrderEval, Undecided as OUndecided, Vec
+        num = None
+        try:
+            for ev_ in ([1, 2], [1, 2, 4], [1, 2, 4, 8], [3, 4, 6, 11, 12], [Fraction(1, 3)]):
+                ed = Vec(Fraction(x) for x in ev_)
+                got = OrderEval({edges: ed}).ev(centres)
+                want_ = [(a_ + b_) / 2 for a_, b_ in zip(ed[:-1], ed[1:])]
+                if not isinstance(got, list) or list(got) != want_:
+                    num = 'edges %s give centres %s, expected %s' % (
+                        [str(x) for x in ed], [str(x) for x in got] if isinstance(got, list) else got,
+                        [str(x) for x in want_])
+                    break
+            else:
+                num = True
+        except IndexError as ie:
+            num = 'edges %s: %s' % (ev_, ie)
+        except (OUndecided, ZeroDivisionError, TypeError, ValueError):
+            num = None
+        if num is True:
+            ctx.passed(rid, fi, c, 'interpreted on 5 sample edge vectors')
+            return
+        if num is not None:
+            ctx.violation(rid, fi, c, num)
+            return
         if t[0] == 'call' and t[1] == 'numpy.array':
             t = t[2][0]
         if t[0] == 'comp':
@@ -759,8 +786,10 @@ def rule_bins(ctx, rid):
             ok = alg.poly(t) == want
         if ok:
             ctx.passed(rid, fi, c)
-        else:
+        elif t[0] in ('comp', 'bin'):
             ctx.violation(rid, fi, c, 'centres are %s' % show(centres)[:100])
+        else:
+            ctx.undecided(rid, fi, c, 'cannot read the centres %s' % show(centres)[:100])
     else:
         ctx.undecided(rid, fi, c, 'unexpected return shape')
 
